@@ -89,7 +89,7 @@ type controller struct {
 }
 
 func (c *controller) Commit(e *pipeline.Event) {
-	c.log.add(c.bidx, LCommitEv, int64(e.SeqID), int64(e.SourceID), int64(e.Size), int64(e.VerifKind()))
+	c.log.add(c.bidx, LCommitEv, int64(e.SeqID), e.VerifStreamID(), int64(e.Size), int64(e.VerifKind()))
 	c.log.commits.Add(1)
 }
 func (c *controller) Error(string) {}
